@@ -72,7 +72,9 @@ class Op:
         raise shim.TraceError('power of a field term')
 
     def __bool__(s): raise shim.TraceError('truth value of a field term')
-    def __mul__(s, o): raise shim.TraceError('arithmetic on a field term')
+    def __mul__(s, o):
+        if isinstance(o, _Sink): return o          # loss bookkeeping (masks, targets) is outside the model
+        raise shim.TraceError('arithmetic on a field term')
     __rmul__ = __add__ = __radd__ = __sub__ = __rsub__ = __truediv__ = __neg__ = __mul__
 
 
@@ -109,6 +111,10 @@ def coq(t):
         if t.op == 'PROP':
             zp, ptype, k, z, dx, lam, x = t.a
             return '(PROP %s %s %s %s %s %s %s)' % (' '.join('true' if b else 'false' for b in zp), ptype, shim.coq(k), shim.coq(z), shim.coq(dx), shim.coq(lam), coq(x))
+        if t.op == 'fsum':
+            r = 'fzero'
+            for x in t.a: r = '(fadd %s %s)' % (r, coq(x))
+            return r
         if t.op == 'MODEL': return '(MODEL %d%%nat %s)' % (t.a[0], coq(t.a[1]))
         return '(%s %s)' % (t.op, ' '.join(coq(x) for x in t.a))
     raise shim.TraceError('emit: not an operator term: %r' % (t,))
@@ -178,14 +184,14 @@ def load_havoc(relpath, fname, ns, symbols, cls=None, extra=(), ignore=()):
     fn = _fundef(relpath, fname, cls)
     pre, loop, post = split_loop(fn)
     assigned = _stores(loop.body) | _stores([loop.target]) | set(extra)
-    missing = [n for n in sorted(assigned) if n not in symbols and n not in ignore]
-    if missing: raise shim.TraceError('%s: the loop assigns %s, which the recipe does not model' % (fname, missing))
+    # loop-assigned variables the recipe has no symbol for (temporaries, loss bookkeeping; `ignore` names the known ones) become
+    # poison after the loop: the epilogue may overwrite them but any USE raises (fail-closed), so new temporaries are harmless
     ns['__havoc__'] = lambda n: symbols[n]() if n in symbols else _Poison(n)
     hav = [ast.parse('%s = __havoc__(%r)' % (n, n)).body[0] for n in sorted(assigned)]
     path = os.path.join(shim.REPO, relpath)
     epi = _mk(fn, fname + '__epilogue', list(pre) + hav + list(post), ns, path)
     carried = sorted(n for n in assigned if n in symbols)
-    ret = ast.parse('return {%s}' % ', '.join('%r: %s' % (n, n) for n in sorted(_stores(loop.body)) if n not in ignore)).body[0]
+    ret = ast.parse('return {%s}' % ', '.join('%r: %s' % (n, n) for n in sorted(_stores(loop.body)) if n in symbols)).body[0]
     bod = _mk(fn, fname + '__body', list(pre) + [ast.parse('%s = __havoc__(%r)' % (n, n)).body[0] for n in carried] + list(loop.body) + [ret], ns, path)
     return epi, bod, sorted(assigned)
 
@@ -198,10 +204,19 @@ class _Poison:
 
 
 class _Sink:
-    """stand-in for loggers, optimisers, progress bars: accepts every call, returns itself"""
+    """stand-in for loggers, optimisers, progress bars, losses: accepts every call / operation, returns itself"""
     def __call__(s, *a, **k): return s
     def __getattr__(s, k): return s
     def __iter__(s): return iter(())
+    def __getitem__(s, k): return s
+    def __mul__(s, o): return s
+    __rmul__ = __add__ = __radd__ = __sub__ = __rsub__ = __mul__
+    def __format__(s, spec): return '<sink>'
+
+
+class _Bar(list):
+    """tqdm(range(n)): iterable with a description"""
+    def set_description(s, *a, **k): pass
 
 
 # ================================================================ stubs
@@ -211,6 +226,11 @@ PTYPE = 'ptype'                   # the caller's propagation_type (emitted as a 
 def _field_arg(x, lits, hint):
     if isinstance(x, Op): return x
     return var(lits.name(x, hint), tuple(np.asarray(x).shape))
+
+
+K_USED = []                                   # distinct wavenumber expressions handed to propagate_beam during one trace()
+K_CANON = (2 * shim.PI) / shim.var('lam')
+K_SLOTS = 4
 
 
 def prop_stub(relpath, lits, log):
@@ -224,7 +244,11 @@ def prop_stub(relpath, lits, log):
             if extra in b and b[extra] != want: raise shim.TraceError('propagate_beam called with %s=%r' % (extra, b[extra]))
         zp = tuple(bool(v) for v in b['zero_padding']) if 'zero_padding' in b else (False, False, False)   # NumPy: never pads
         x = _field_arg(b['field'], lits, 'holo')
-        t = Op('PROP', zp, PTYPE, shim.E.lift(b['k']), shim.E.lift(b['distance']), shim.E.lift(b['dx']), shim.E.lift(b['wavelength']), x, shape=x.shape)
+        kexpr = shim.E.lift(b['k'])
+        if not any(kexpr is e for e in K_USED): K_USED.append(kexpr)
+        # the wavenumber handed over is emitted separately (k_used_*: proved = 2 pi / lambda for all lambda in C07_TieE) and written
+        # in that canonical form inside the operator term, so that the operator-level ties do not depend on how the source spells it
+        t = Op('PROP', zp, PTYPE, K_CANON, shim.E.lift(b['distance']), shim.E.lift(b['dx']), shim.E.lift(b['wavelength']), x, shape=x.shape)
         log.append(t)
         return t
     return propagate_beam, len(dflt.get('zero_padding') or ())
@@ -253,8 +277,7 @@ def helper_stubs(lits):
 
 def _common(ns):
     ns['logging'] = _Sink()
-    ns['tqdm'] = lambda x, **k: x
-    ns['wavenumber_real'] = None
+    ns['tqdm'] = lambda x, **k: _Bar(x)
     return ns
 
 
@@ -373,6 +396,93 @@ def gs_numpy_window(h, w):
     lits = Lits()
     ho, re, body, win, _ = trace_gs_numpy(lits, h, w)
     return win, list(ho.shape), list(re.shape)
+
+
+class _Fields:
+    """np.asarray(list of fields): a stack of field terms"""
+    def __init__(s, items): s.items = list(items)
+    def astype(s, *a, **k): return s
+    def __getitem__(s, i): return s.items[int(i)]
+    def __len__(s): return len(s.items)
+
+
+class _Planes:
+    """np.zeros((L, H, W)): one slot per plane, filled by item assignment, summed over axis 0"""
+    def __init__(s, n, shape): s.items = [None] * n; s.shape2 = tuple(shape)
+    def __setitem__(s, i, v):
+        if not isinstance(v, Op) or tuple(v.shape) != s.shape2: raise shim.TraceError('plane assignment of shape %r into %r' % (getattr(v, 'shape', None), s.shape2))
+        s.items[int(i)] = v
+
+
+def trace_gs3d(lits, h, w):
+    """odak.wave.gerchberg_saxton_3d, two planes at distances z and ds (the context's two free reals), 'no constraint'"""
+    ns = _common(shim.base_namespace())
+    log = []
+    ns.update(helper_stubs(lits))
+    shim.load('odak/wave/__init__.py', ['wavenumber'], ns)
+    ns['propagate_beam'], _ = prop_stub('odak/wave/classical.py', lits, log)
+    ns['zero_pad'] = lambda x, *a, **k: Op('padf', x.shape[0], x.shape[1], x, shape=(2 * x.shape[0], 2 * x.shape[1]), kind=x.kind)
+    ns['add_random_phase'] = lambda x: var('H0', x.shape)
+    ns['add_phase'] = lambda x, p: var('H0', x.shape)
+    amp1 = ns['calculate_amplitude']
+    ns['calculate_amplitude'] = lambda x: _Fields([amp1(f) for f in x.items]) if isinstance(x, _Fields) else amp1(x)
+    n = ns['np'].__dict__
+    n['asarray'] = lambda x, *a, **k: _Fields(x) if isinstance(x, (list, tuple)) and all(isinstance(f, Op) for f in x) else shim.wrap(x)
+    zeros0 = n['zeros']
+    n['zeros'] = lambda shp, **k: _Planes(shp[0], shp[1:]) if isinstance(shp, tuple) and len(shp) == 3 else zeros0(shp, **k)
+    def npsum(x, axis=None, **k):
+        if isinstance(x, _Planes) and axis == 0 and all(i is not None for i in x.items): return Op('fsum', *x.items, shape=x.shape2)
+        raise shim.TraceError('np.sum of %r over axis %r' % (type(x).__name__, axis))
+    n['sum'] = npsum
+    def npabs(x):
+        if isinstance(x, Op) and x.kind == 'rfld': return Op('rabs_f', x, shape=x.shape, kind='rfld')
+        raise shim.TraceError('np.abs of a complex field term')
+    n['abs'] = npabs
+    Hh = var('H', (2 * h, 2 * w))
+    syms = {'hologram': lambda: Hh}
+    epi, bod, assigned = load_havoc('odak/wave/classical.py', 'gerchberg_saxton_3d', ns, syms,
+                                    ignore=['i', 'distance_id', 'distance', 'reconstruction', 'target_current', 'new_target', 'hologram_layer', 'holograms', 'alpha', 'beta', 'gamma', 'amplitude_current'])
+    lam, dx = shim.var('lam'), shim.var('dx')
+    fields = [var('f0', (h, w)), var('f1', (h, w))]
+    dist = [shim.var('z'), shim.var('ds')]
+    ho = epi(fields, 1, dist, dx, lam, propagation_type=PTYPE)
+    out = bod(fields, 1, dist, dx, lam, propagation_type=PTYPE)
+    return ho, out['hologram'], assigned
+
+
+def gs3d_defs(lits, sizes):
+    defs, notes = [], {}
+    for (h, w) in sizes:
+        ho, body, assigned = trace_gs3d(lits, h, w)
+        tag = '%dx%d' % (h, w)
+        defs += [('t_gs3_epi_%s' % tag, '(f0 f1 H : fld)', 'fld', coq(ho)), ('t_gs3_body_%s' % tag, '(f0 f1 H : fld)', 'fld', coq(body))]
+        notes[tag] = {'out_shape': list(ho.shape), 'loop_assigns': assigned}
+    return defs, notes
+
+
+def trace_multiplane_loop(lits):
+    """one pass through the loop body of multiplane_hologram_optimizer.gradient_descent (default amplitude): the hologram
+    it leaves behind - which gradient_descent returns after the loop - is generate_complex_field(ones, constrained phase)"""
+    ns = _common(shim.base_namespace())
+    ns.update(helper_stubs(lits))
+    shim.load('odak/learn/wave/legacy.py', ['init_amplitude'], ns, cls='multiplane_hologram_optimizer')
+    phi = var('phi', (H0, W0), kind='rfld')
+    Hh = var('H', (H0, W0))
+    me = types.SimpleNamespace(slm_resolution=[H0, W0], device='cpu', number_of_iterations=1, number_of_planes=2, optimizer=_Sink(), targets=_Sink(), mask=_Sink(),
+                               phase='PHASE', offset='OFFSET', evaluate=lambda *a, **k: _Sink())
+    ns['init_amplitude'](me, None)
+    calls = []
+    def dpc(p, o):
+        if p != 'PHASE' or o != 'OFFSET': raise shim.TraceError('double_phase_constrain called with other variables than the optimiser\'s')
+        calls.append(1); return phi
+    me.double_phase_constrain = dpc
+    me.model = lambda x, channel_id=None, depth_id=None: Op('MODEL', int(depth_id), x, shape=x.shape)
+    epi, bod, assigned = load_havoc('odak/learn/wave/legacy.py', 'gradient_descent', ns, {'hologram': lambda: Hh}, cls='multiplane_hologram_optimizer',
+                                    ignore=['step', 'plane_id', 'phase', 'amplitude', 'reconstruction', 'reconstruction_intensity', 'loss', 'description'])
+    ret = epi(me)
+    out = bod(me)
+    if not calls: raise shim.TraceError('the loop does not constrain the phase')
+    return [('t_mp_gd_ret', '(H : fld)', 'fld', coq(ret)), ('t_mp_loop_holo', '(phi : rfld)', 'fld', coq(out['hologram']))], {'loop_assigns': assigned}
 
 
 BITS = (1, 3, 8)
@@ -537,13 +647,14 @@ HEADER = ('(* GENERATED on every run from the current sources of the hologram-sy
           'From OdakV Require Import Base.RealAux Wave.Fields C07.Model.\nOpen Scope R_scope.\n')
 
 GSN_SIZES = [(3, 4), (5, 3)]
-ROUTINES = ['elementwise', 'sgd', 'gs_torch', 'gs_numpy', 'multicolor', 'multiplane', 'swdp']
+ROUTINES = ['elementwise', 'wavenumber', 'sgd', 'gs_torch', 'gs_numpy', 'gs3d', 'multicolor', 'multiplane', 'swdp']
 
 
 def trace():
     """returns (Gen with per-sample definitions, text of the operator-level file, operator-level definitions, notes, errors);
     a routine whose tracing fails is reported in `errors` and leaves its definitions out"""
     g = Gen(); lits = Lits(); notes = {}; errors = {}
+    del K_USED[:]
     defs = []
     def attempt(name, f):
         try:
@@ -557,13 +668,25 @@ def trace():
     attempt('sgd', lambda: trace_sgd(lits))
     attempt('gs_torch', lambda: trace_gs_torch(lits))
     attempt('gs_numpy', lambda: gs_numpy_defs(lits, GSN_SIZES))
+    attempt('gs3d', lambda: gs3d_defs(lits, GSN_SIZES))
     attempt('multicolor', lambda: trace_multicolor(g, lits))
-    attempt('multiplane', lambda: trace_multiplane(lits))
+    def multiplane():
+        d1, n1 = trace_multiplane(lits)
+        d2, n2 = trace_multiplane_loop(lits)
+        return d1 + d2, dict(n1, gradient_descent=n2)
+    attempt('multiplane', multiplane)
     def swdp():
         d1, n1 = trace_swdp(g, lits, kernel_length=4, tag='blur')
         d2, n2 = trace_swdp(g, lits, kernel_length=0, tag='noblur')
         return d1 + d2, {'blur': n1, 'noblur': n2}
     attempt('swdp', swdp)
+    def kdefs():
+        if not K_USED: raise shim.TraceError('no propagate_beam call was traced')
+        if len(K_USED) > K_SLOTS: raise shim.TraceError('%d different wavenumber expressions' % len(K_USED))
+        for i in range(K_SLOTS):
+            g.add('k_used_%d' % i, ['lam'], K_USED[min(i, len(K_USED) - 1)])
+        return [], {'distinct': len(K_USED)}
+    attempt('wavenumber', kdefs)
     out = [HEADER]
     for name, args, ty, term in defs:
         out.append('Definition %s %s %s : %s :=\n  %s.\n' % (name, CTX, args, ty, term))
